@@ -131,3 +131,16 @@ MANIFEST_TEXT['C05'] = dict(
     text='Coq: the schema trees of all 412 message types regenerated from the source equal the committed constraint table; every array of constrained elements is descended into at every depth (traversal completeness, by vm_compute + forallb lifting); the tag -> error class table equals the specified one; per-rule meaning lemmas of the validator model (required, code-point length, numeric bounds, nil pointer, omitempty). The validator model is run against the real validator on every single-edit case (full list of failing rule tags compared) and against the real send / receive paths of the four endpoint kinds (send error, write, CALL_ERROR code in the connection\'s dialect, handler not invoked); the same cases are also judged by the committed table (reference answers).',
     note='Trusted: Coq kernel + vm_compute, translator, committed constraint table (derived from the pinned tree, repaired for F20 / F25; presence of zero-able mandatory scalars cannot be expressed by the library: F15, described in DESIGN.md), harness. validator.v9 and encoding/json are modelled / used, not verified.',
     technique='translator-regenerated schemas + Coq proof by reflection against a committed constraint table + validator model with enumerated differential correspondence')
+
+PROPS['C04'] = Prop('C04', harness='c04', entries=['c04e', 'c04d', 'c04s'], props_file='theories/Props/C04.v', quick_n=1, thorough_n=1,
+                    trusted=[TRANSLATOR_TRUST, 'modelled, validated by this run, not verified: encoding/json (struct rules, string escaping, number formatting, tokeniser)',
+                             'schema-driven payload generator (tools/internal/stubs) with a UTF-8 pool (HTML-sensitive characters, control characters, U+2028/9, 4-byte scalars, U+FFFD)'],
+                    assumptions=['integers of magnitude above 2^53 do not survive the receiver\'s detour through float64 (finding F14): generated payloads stay below',
+                                 'timestamps are opaque strings here: their text is C20\'s subject',
+                                 'structured interface{} payloads (DataTransfer data) are generated as strings'],
+                    rule='for every request and response type of both versions: payloads generated from the schema (mandatory fields only / all fields with boundary lengths / random subsets; thorough: 6 seeds), alternating both EscapeHTML settings, through the real CreateCall / CreateCallResult + MarshalJSON on one endpoint and ParseRawJsonMessage + ParseMessage on a second one; JSON tree compared with the model\'s encode, decoded payload with the model\'s decode, string text with print_str; counted = distinct encoded cases',
+                    design_ref='5 C04', monitor_prefixes=['C04'])
+MANIFEST_TEXT['C04'] = dict(
+    text='Coq: frames have the three OCPP-J shapes and are read back unchanged; the JSON keys of every payload struct of the current source are pairwise distinct under case folding (regenerated JSON schemas, vm_compute + forallb lifting); encode / decode model of encoding/json\'s struct rules with the round-trip theorem (decode (encode v) re-encodes to the same JSON) and the string text layer (parse (print s) = s under both escaping modes). The model is run against the real marshalling and the real receive path for every message type, and the property itself (same kind, id, action, equal payload, identical re-serialisation) is evaluated on the implementation for every generated payload.',
+    note='Trusted: Coq kernel + vm_compute, translator, harness; encoding/json is modelled, not verified; float formatting of non-integers is compared at 3 decimals.',
+    technique='translator-regenerated JSON schemas + Coq proofs over an encode/decode model + differential correspondence + direct round-trip monitor on the implementation')
